@@ -58,11 +58,12 @@ type Axiom struct {
 }
 
 type Ghost struct {
-	Stable bool
-	Name   string
-	Sort   string
-	Init   string // SMT text or "" (fresh at entry)
-	Tags   []string
+	Stable  bool
+	FsState bool
+	Name    string
+	Sort    string
+	Init    string // SMT text or "" (fresh at entry)
+	Tags    []string
 }
 
 type Lemma struct {
@@ -471,6 +472,11 @@ func (lib *SpecLib) parseLines(lines []rawLine, pkgPath string, isSpec bool) err
 				// only contracts that name it in modifies/sets change it (objects it describes never escape to callees)
 				g.Stable = true
 				srt = strings.TrimSuffix(srt, " stable")
+			}
+			if strings.HasSuffix(srt, " fsstate") {
+				// file-system state: changed only by callees that can reach a mutating backend operation
+				g.FsState = true
+				srt = strings.TrimSuffix(srt, " fsstate")
 			}
 			g.Sort = resolveSort(srt)
 			lib.Ghosts[g.Name] = g
